@@ -43,14 +43,24 @@ func execBatch(c *ctx, in ev) []ev {
 	r := newRand(c.seed, fmt.Sprintf("batch-%v", in["bid"]))
 	e := ev{"op": "Batch", "cfg": cfg, "kinds": kinds, "wire": wire, "eval_ok": false, "parse_ok": false, "slots": []any{}, "err": "", "panic": ""}
 	e["panic"] = guard(func() {
-		k1 := p384Key(c.seed, "k1")
 		rsa0 := rsaKey(0)
-		iss1 := type1.NewBasicPrivateIssuer(k1)
 		iss2 := type2.NewBasicPublicIssuer(rsa0)
-		id1, id2 := iss1.TokenKeyID(), iss2.TokenKeyID()
+		id2 := iss2.TokenKeyID()
+		// the model's truncated ids "A" (type-1 key k1) and "B" (type-2 key) are different bytes: one seed in 256 would
+		// make them equal, so k1 is the first derived key whose id ends differently
+		k1 := p384Key(c.seed, "k1")
+		iss1 := type1.NewBasicPrivateIssuer(k1)
+		for n := 0; iss1.TokenKeyID()[31] == id2[31]; n++ {
+			k1 = p384Key(c.seed, fmt.Sprintf("k1-alt-%d", n))
+			iss1 = type1.NewBasicPrivateIssuer(k1)
+		}
+		id1 := iss1.TokenKeyID()
 		// a type-1 key whose key id ends in the same byte as the type-2 key's
 		k1b := collidingP384Key(c.seed, id2[31])
 		iss1b := type1.NewBasicPrivateIssuer(k1b)
+		// another type-1 key whose key id ends in the same byte as key k1's
+		k1c := collidingP384Key(c.seed, id1[31])
+		iss1c := type1.NewBasicPrivateIssuer(k1c)
 		var issuers []batched.Issuer
 		switch cfg {
 		case "both":
@@ -63,6 +73,10 @@ func execBatch(c *ctx, in ev) []ev {
 			issuers = []batched.Issuer{failingIssuer{1, id1}, batchIssuer1{iss1}, failingIssuer{2, id2}, batchIssuer2{iss2}}
 		case "crosscollide":
 			issuers = []batched.Issuer{batchIssuer2{iss2}, batchIssuer1{type1.NewBasicPrivateIssuer(k1b)}}
+		case "samecollide":
+			issuers = []batched.Issuer{batchIssuer1{iss1}, batchIssuer1{type1.NewBasicPrivateIssuer(k1c)}}
+		case "samecollide2":
+			issuers = []batched.Issuer{batchIssuer1{type1.NewBasicPrivateIssuer(k1c)}, batchIssuer1{iss1}, batchIssuer2{iss2}}
 		case "none":
 		}
 		unknown := byte(0)
@@ -81,6 +95,9 @@ func execBatch(c *ctx, in ev) []ev {
 				kk, ii, idd := k1, iss1, id1
 				if k == "1okB" {
 					kk, ii, idd = k1b, iss1b, iss1b.TokenKeyID()
+				}
+				if k == "1okC" {
+					kk, ii, idd = k1c, iss1c, iss1c.TokenKeyID()
 				}
 				st, err := type1.NewBasicPrivateClient().CreateTokenRequest(randBytes(r, 10), randNonce(r), idd, ii.TokenKey())
 				if err != nil {
@@ -174,8 +191,8 @@ func genBatch(c *ctx, emit func(ev)) {
 	}
 	// longer seeded sequences
 	r := newRand(c.seed, "batch-long")
-	kinds := []string{"1ok", "1unk", "1bad", "2ok", "2unk", "2bad", "1okB"}
-	cfgs := []string{"both", "t1only", "t2only", "firstfails", "none", "crosscollide"}
+	kinds := []string{"1ok", "1unk", "1bad", "2ok", "2unk", "2bad", "1okB", "1okC"}
+	cfgs := []string{"both", "t1only", "t2only", "firstfails", "none", "crosscollide", "samecollide", "samecollide2"}
 	for i := 0; i < c.tierInt(20, 200); i++ {
 		n := 5 + r.Intn(8)
 		rs := []any{}
